@@ -264,6 +264,26 @@ def explore_server(r, h1, rnd, n, stdlib):
     return results, bad
 
 
+def server_history_failures(r, h1, rnd, n, stdlib):
+    """protocol-level histories for the checks of other properties (C06, C10): the notifications of a history are
+    sent to the real server and what it publishes after each one is compared with the findings of a fresh database
+    on the latest contents.  -> list of violation dicts (spec failures outside C19's listed class only)"""
+    results, srv_bad = explore_server(r, h1, rnd, n, stdlib)
+    listed = runner.listed_classes(PID, CLASS_BITS)
+    out = []
+    for m, cs in results:
+        corr, prop, known, mb = runner.classify(cs, listed.keys())
+        if prop:
+            k0 = (prop[0] - len(m.get("indexed", {}))) // 2
+            st = m["steps"][k0]
+            out.append({"why": "after this history the real server does not answer as a server started fresh on the latest contents: "
+                               "the findings it publishes for the document notified last differ",
+                        "pyproject": m["pyproject"], "notification_index": k0, "on_disk_before_start": m.get("indexed", {}),
+                        "history": [(s["path"], s["text"]) for s in m["steps"][:k0 + 1]],
+                        "published": st["published"], "fresh_findings": st.get("fresh")})
+    return out, len(results)
+
+
 def run(r):
     quick = r.tier == "quick"
     proof_ok = runner.proof_stage(r)
